@@ -12,72 +12,86 @@ The property theorems are split by topic:
   (`compose_assoc`, `compose_intrinsic`, `inverse_two_sided`, `quat_compose_matrix`, `quat_inverse_matrix`,
   `quat_inverse_two_sided`, `heading_convention`, `heading_add`, `euler_forward`,
   `euler_extract_construct`, `euler_construct_extract`, …);
-* `Props/C07Spec.lean` — specifiers / operators that do not depend on generated data (`beyond_frame`,
-  `beyond_local`, `offsetBy_spec`, `offsetAlong_spec`, `relativeTo_*`, `facing_global`, `facing_toward`,
-  `facing_directly_toward`, `following_uniform`);
+* `Props/C07Spec.lean` — specifiers / operators composing positions and orientations in a frame (`beyond_frame`,
+  `beyond_local`, `beyond_parent_inherited`, `offsetBy_spec`, `offsetAlong_spec`, `relativeTo_*`, `facing_global`,
+  `facing_toward`, `facing_directly_toward`, `following_uniform`, `follow_step_rule`);
 * `Props/C07Dir.lean` — the specifiers instantiated on data regenerated from `/repo` (`directional_gap`,
   `directional_local`, `directional_opoint`, `directional_vector`, `directional_rigid`, `beyond_scalar`,
   `on_base_contact`, `side_operator`) and the side conditions on that data (`gen_*`);
 * `Props/C07Ops.lean` — the scalar operators and `apparently facing`
   (`distance_*`, `angle_spec`, `altitude_spec`, `relative_heading_spec`, `apparent_heading_spec`,
-  `distance_past_spec`, `apparently_facing_*`).
+  `distance_past_spec`, `apparently_facing_*`);
+* `Props/C07Real.lean` — the `(cos, sin)` pairs instantiated at real angles (`heading_convention_real`, …);
+* here — the `facing toward` family *by the name of the specifier function*, on the table regenerated from
+  `veneer.py` (`gen_facing_table`, `facing_family_generated`, `facing_family_meaning`).
 
-* `Props/C07Real.lean` — the `(cos, sin)` pairs instantiated at real angles (`heading_convention_real`, …).
+The closed forms of the primitives that are instantiated on generated formulas (`euler_eq`, `rotatedBy_eq`,
+`azimuthOf_eq`, `altitudeOf_eq`, `azimuthTo_eq`, `altitudeTo_eq`, `apparentHeading_eq`, `gen_euler_axes`) are
+in `Lemmas/Frames.lean`; they are side conditions on `Gen/Frames.lean` too.
 
-Full statement that is **false of the code at the pinned commit** (kept visible, §2.3 of DESIGN):
-
-    theorem apparently_facing_current :
-        ApparentlyFacingRespectsParent α Gen.Frames.apparentlyFacingUsesParent
-
-and likewise
-
-    theorem beyond_parent_documented :
-        ∀ o, beyondParent Gen.Frames.beyondInheritsFromOrientation (some o) = o
-
-(`Beyond` coerces `fromPt` to a vector *before* testing `isA(fromPt, OrientedPoint)`, so the orientation
-of an oriented `from` argument is never inherited; see `beyond_parent_current_status`).
-
-`ApparentlyFacing.helper` ignores `parentOrientation` (generated flag `= false`), so only
-`apparently_facing_global_parent` (global parent) holds for it; the negation witness is
-`apparently_facing_ignoring_parent_witness`, and `apparently_facing_generated` gives the full statement
-as soon as the regenerated flag becomes `true` (i.e. once the helper works in the parent frame).
+Every statement holds of the code as it is now: the two statements that were false of the earlier pinned
+commit (`apparently facing` ignored `parentOrientation`; `beyond … from <OrientedPoint>` dropped the inherited
+orientation) are proved at full strength (`apparently_facing_respects_parent`, `apparently_facing_general`,
+`beyond_parent_inherited`), the model no longer has a mode reproducing the defects, and the translator
+accepts only the repaired shape of the two functions.
 -/
 namespace Scenic.C07
 open Scenic.Frames
 
-/-- whatever `/repo` currently does: if the generated flag says the helper works in the parent frame,
-    the full statement holds -/
-theorem apparently_facing_generated {α : Type} [Field α] [DecidableEq α]
-    (hg : Gen.Frames.apparentlyFacingUsesParent = true) :
-    ApparentlyFacingRespectsParent α Gen.Frames.apparentlyFacingUsesParent := by
-  rw [hg]; exact apparently_facing_respects_parent
+/-- the documented members of the `facing toward` family:
+    name ↦ (direction is `position − target`, the pitch is specified too, a heading is added) -/
+def documentedFacing : List (String × (Bool × Bool × Bool)) := [
+  ("FacingToward", (false, false, false)), ("FacingDirectlyToward", (false, true, false)),
+  ("FacingAwayFrom", (true, false, false)), ("FacingDirectlyAwayFrom", (true, true, false)),
+  ("ApparentlyFacing", (true, false, true))]
 
-/-- the statement about `apparently facing` that applies to the code as it is *now*: either the
-    helper works in the parent frame (then the full statement holds), or it ignores the parent and the
-    full statement is refuted by the witness. -/
-theorem apparently_facing_current_status :
-    (Gen.Frames.apparentlyFacingUsesParent = true ∧
-        ApparentlyFacingRespectsParent Rat Gen.Frames.apparentlyFacingUsesParent) ∨
-    (Gen.Frames.apparentlyFacingUsesParent = false ∧
-        ¬ ApparentlyFacingRespectsParent Rat Gen.Frames.apparentlyFacingUsesParent) := by
-  cases h : Gen.Frames.apparentlyFacingUsesParent
-  · exact Or.inr ⟨rfl, apparently_facing_ignoring_parent_witness⟩
-  · exact Or.inl ⟨rfl, apparently_facing_respects_parent⟩
+/-- side condition on the generated table: the five helpers in `veneer.py` compute the spherical angles of
+    `±(target − position)` *in the parent frame*, with the documented sign / pitch / heading -/
+theorem gen_facing_table : Gen.Frames.facingTable = documentedFacing := by decide
 
-/-- the statement about the orientation inherited through `beyond … from P` that applies to the code
-    as it is *now*: either the `OrientedPoint` test precedes the coercion and the orientation of an
-    oriented `P` is inherited (as documented), or it follows it and a non-global orientation of `P`
-    is dropped (negation witness: `P` facing West). -/
-theorem beyond_parent_current_status :
-    (Gen.Frames.beyondInheritsFromOrientation = true ∧
-        ∀ o : Mat3 Rat, beyondParent Gen.Frames.beyondInheritsFromOrientation (some o) = o) ∨
-    (Gen.Frames.beyondInheritsFromOrientation = false ∧
-        ∃ o : Mat3 Rat, o.IsRot ∧ beyondParent Gen.Frames.beyondInheritsFromOrientation (some o) ≠ o) := by
-  cases h : Gen.Frames.beyondInheritsFromOrientation
-  · refine Or.inr ⟨rfl, rotZ ⟨0, 1⟩, isRot_rotZ (by unfold Ang.Unit; norm_num), ?_⟩
-    intro e
-    have := congrArg (fun m => m.r0.x) e
-    simp [beyondParent, Mat3.one, rotZ] at this
-  · exact Or.inl ⟨rfl, fun o => rfl⟩
+section
+variable {α : Type} [Field α] [DecidableEq α]
+
+/-- what each of the five specifier functions of `veneer.py` specifies, on the regenerated table -/
+theorem facing_family_generated (p : Mat3 α) (position target : Vec3 α) (hd : Ang α) (h rho : α) :
+    facingByName "FacingToward" p position target hd h rho
+      = some (azimuthOf (facingDirection false p position target) h, none) ∧
+    facingByName "FacingDirectlyToward" p position target hd h rho
+      = some (azimuthOf (facingDirection false p position target) h,
+              some (altitudeOf (facingDirection false p position target) h rho)) ∧
+    facingByName "FacingAwayFrom" p position target hd h rho
+      = some (azimuthOf (facingDirection true p position target) h, none) ∧
+    facingByName "FacingDirectlyAwayFrom" p position target hd h rho
+      = some (azimuthOf (facingDirection true p position target) h,
+              some (altitudeOf (facingDirection true p position target) h rho)) ∧
+    facingByName "ApparentlyFacing" p position target hd h rho
+      = some (apparentlyFacingYaw p position target hd h, none) := by
+  simp only [facingByName, gen_facing_table]
+  refine ⟨rfl, rfl, rfl, rfl, rfl⟩
+
+/-- … and hence their geometric meaning, for every parent orientation `P` (a rotation), position and
+    target: with the yaw (and pitch) the regenerated helper specifies and the remaining angles `0`,
+
+    * `facing toward T` / `facing away from T`: `±(T − position) = h · forward + z · parentUp`;
+    * `facing directly toward / away from T`: `±(T − position) = rho · forward`;
+    * `apparently facing H from T`: in the parent frame, `h · forward = rotZ(H) · (horizontal line of sight)`. -/
+theorem facing_family_meaning (p : Mat3 α) (hp : p.IsRot) (position target : Vec3 α) (hd : Ang α) (h rho : α)
+    (hh : h ≠ 0) (hrho : rho ≠ 0) (name : String) (away directly : Bool)
+    (hname : documentedFacing.lookup name = some (away, directly, false)) :
+    ∃ yaw pitch, facingByName name p position target hd h rho = some (yaw, pitch) ∧
+      let o := p.mul (euler yaw (pitch.getD Ang.zero) Ang.zero)
+      let want := if away then position.sub target else target.sub position
+      if directly then (o.mulVec Vec3.ey).smul rho = want
+      else ((o.mulVec Vec3.ey).smul h).add ((p.mulVec Vec3.ez).smul (facingDirection away p position target).z) = want := by
+  refine ⟨azimuthOf (facingDirection away p position target) h,
+    if directly then some (altitudeOf (facingDirection away p position target) h rho) else none, ?_, ?_⟩
+  · simp only [facingByName, gen_facing_table, hname, Option.map_some, facingFamily]
+    cases directly <;> simp
+  · cases directly
+    · simpa using facing_toward away p hp position target h hh
+    · simpa using facing_directly_toward away p hp position target h rho hh hrho
+example : documentedFacing.lookup "FacingDirectlyAwayFrom" = some (true, true, false) := by decide
+
+end
 
 end Scenic.C07
